@@ -127,6 +127,14 @@ static void std_push(cs_scenario *sc, int entry, int np, int p1, int p2,
     ++sc->nstd;
 }
 
+/* the weighted variant of the connection-repeatability family: one
+   connection deviates, and the measurement-error model is declared on a
+   grid of its own (as many points as the calibration, other frequencies)
+   with a noise floor linear in frequency: 1e-7 at the first calibration
+   frequency, 1e-2 at 1e13 Hz, i.e. below 1e-6 at every calibration
+   frequency */
+static int g_corr_dev;
+
 static const double line_deg[5] = { 60.0, 120.0, 30.0, 90.0, 150.0 };
 static const double complex refl_val[4] = {
     -0.95 + 0.10 * I, 0.9 * (0.98 - 0.199 * I), -0.35 + 0.61 * I,
@@ -254,7 +262,13 @@ static int build(cs_scenario *sc, int fam, vnacal_type_t type, int net,
 	cs_param p; memset(&p, 0, sizeof(p));
 	p.kind = CSP_CORRELATED; p.c0 = -0.97 + 0.05 * I; p.c1 = 0.01;
 	p.other = U; p.sigma = 0.01;
+	/* weighted variant: the second connection really came out 2 sigma
+	   off; with the measurement errors declared (far) smaller than the
+	   repeatability, the measurements decide and its value is found */
+	if (g_corr_dev)
+	    p.c0 += 0.012 - 0.016 * I;
 	int C1 = add_par(sc, p);
+	p.c0 = -0.97 + 0.05 * I;
 	int C2 = add_par(sc, p);
 	int r[3] = { ps, po, pm };
 	int a = par_scalar(sc, 0.10 + 0.05 * I);
@@ -453,8 +467,21 @@ static void attempt(cs_scenario *sc, const int *unk, int nunk, double ptol,
     if (ptol > 0 && vnacal_new_set_p_tolerance(vnp, ptol) != 0) { o->rc = -6; goto out; }
     if (!g_tol_order && ettol > 0 && vnacal_new_set_et_tolerance(vnp, ettol) != 0) { o->rc = -6; goto out; }
     if (limit > 0 && vnacal_new_set_iteration_limit(vnp, limit) != 0) { o->rc = -6; goto out; }
-    if (weight) {
-	double nf = 1e-5;
+    if (weight && g_corr_dev && sc->vna.nf > 1) {
+	const int n = sc->vna.nf;
+	const double f0 = sc->vna.f[0], fend = 1.0e13;
+	double fv[CS_MAXF], sv[CS_MAXF];
+	for (int k = 0; k < n; ++k) {
+	    fv[k] = k == 0 ? f0 : k == n - 1 ? fend :
+		sc->vna.f[k] + 0.4 * (sc->vna.f[k + 1] - sc->vna.f[k]);
+	    sv[k] = 1e-7 + 1e-2 * (fv[k] - f0) / (fend - f0);
+	}
+	if (vnacal_new_set_m_error(vnp, fv, n, sv, NULL) != 0) {
+	    o->rc = -5;
+	    goto out;
+	}
+    } else if (weight) {
+	double nf = g_corr_dev ? 1e-7 : 1e-5;
 	if (vnacal_new_set_m_error(vnp, NULL, 1, &nf, NULL) != 0) {
 	    o->rc = -5;
 	    goto out;
@@ -714,6 +741,7 @@ static void run(int tier, long idx, vf_result *r)
 	    weight ? "weighted(m_error)" : "unweighted", li, ri);
 
     unsigned long mark = vf_exec_begin();
+    g_corr_dev = weight && fam == F_CORR;
     build(&sc, fam, type, net, nf, guess, li, ri, unk, &nunk);
     {
 	long double margin; int eqs, u;
